@@ -323,15 +323,24 @@ def run(ctx, ck):
         if isinstance(n, ast.Call) and (dotted(n.func) or '').endswith('np.array') and n.args \
            and isinstance(n.args[0], ast.List) and len(n.args[0].elts) == 3:
             els = [base_name(e) for e in n.args[0].elts]
-            if all(els) and all(e in fl.rd.names for e in els):
+            tot_expr = None
+            if els[2] is None:
+                # the total written in place: (v + h).T
+                e3 = n.args[0].elts[2]
+                while isinstance(e3, ast.Attribute) and e3.attr == 'T':
+                    e3 = e3.value
+                if isinstance(e3, ast.BinOp):
+                    tot_expr = e3
+                    els[2] = '<sum>'
+            if all(els) and all(e in fl.rd.names for e in els if e != '<sum>'):
                 if stack is not None:
                     raise AnalysisError('more than one candidate for the (v, h, total) stack')
-                stack = (n, els)
+                stack = (n, els, tot_expr)
     if stack is None:
         raise AnalysisError('stack of (vertical, horizontal, total) gain arrays not found')
-    sn, (tv, th, tt) = stack
+    sn, (tv, th, tt), tot_expr = stack
     snid = fl.node_id_of(sn)
-    dt = fl.single_def(tt, snid)
+    dt = fl.single_def(tt, snid) if tot_expr is None else (tot_expr, snid)
     ok, why = False, 'total is not a single assignment'
     if dt is not None:
         terms = sum_terms(dt[0])
@@ -446,12 +455,23 @@ def run(ctx, ck):
                             'in a helper it unpacks from)' % nm)
     for pol, nm in names.items():
         df, de = primary_def(nm)
+        if isinstance(de, ast.Name) and df is f:
+            # a plain copy of a helper's result: the expression behind it
+            de = fl.inline(de, nid, depth=3)
         pr = product_of(de)
         nn = [t for t, _ in pr.num]
         ok = 'self.g0' in nn and not pr.den and abs(abs(pr.coef) - 1) < 1e-12
         ck.ob('R-LIT.k9-g0', FAR + '|g0-factor|' + pol, ok, df.loc(de), '%s = %s' % (nm, norm(de)[:90]))
     # dB conversion: weak (masked) definitions of the gain array
-    conv = [d for d in fl.def_exprs(gname, nid) if d[0] == 'weak']
+    # (a plain copy `gain = other` - a helper's result handed back - is followed to `other`)
+    gn_, at_ = gname, nid
+    for _i in range(6):
+        ds_ = fl.def_exprs(gn_, at_)
+        if len(ds_) == 1 and ds_[0][0] == 'assign' and isinstance(ds_[0][1], ast.Name) and ds_[0][1].id in fl.rd.names:
+            gn_, at_ = ds_[0][1].id, ds_[0][2]
+        else:
+            break
+    conv = [d for d in fl.def_exprs(gn_, at_) if d[0] == 'weak']
     ck.floor('masked dB conversion stores', len(conv), 1)
     for d in conv:
         v = d[1]
@@ -479,7 +499,19 @@ def run(ctx, ck):
         img_loops = [l for l in loops_in(g_.node) if isinstance(l, ast.For) and
                      norm(l.iter) == 'self.image_iter()']
         for l in img_loops:
-            inner = [x for x in loops_in(l) if isinstance(x, ast.For)]
+            # the loops directly inside the image loop (not the ones nested deeper; the one-pass
+            # `for __once in (0,)` wrappers that inlining an early-returning helper leaves are looked through)
+            def outer_loops(stmts):
+                out_ = []
+                for s_ in stmts:
+                    if isinstance(s_, ast.For) and isinstance(s_.target, ast.Name) and s_.target.id.startswith('__once'):
+                        out_ += outer_loops(s_.body)
+                    elif isinstance(s_, ast.For):
+                        out_.append(s_)
+                    elif isinstance(s_, (ast.If, ast.With, ast.Try)):
+                        out_ += outer_loops(getattr(s_, 'body', []) + getattr(s_, 'orelse', []) + getattr(s_, 'finalbody', []))
+                return out_
+            inner = outer_loops(l.body)
             ck.floor('azimuth loops inside image loop', len(inner), 1)
             body_ids = gfl_.cfg.loops[gfl_.cfg.node_of(l)][0]
             for il in inner:
@@ -508,11 +540,20 @@ def run(ctx, ck):
         if isinstance(s_, ast.Assign) and isinstance(s_.targets[0], ast.Name) and \
            isinstance(s_.value, ast.BinOp) and isinstance(s_.value.op, ast.Pow) and \
            norm(s_.value.left) == 'np.e':
-            ex = s_.value.right
+            ex = ifl.inline(s_.value.right, ifl.node_id_of(s_), depth=3)
             pr_ = product_of(ex)
             arg = [t for t, x in pr_.num]
             if len(arg) == 1 and arg[0].endswith('.angle_rad()') and not pr_.den:
                 exps[s_.targets[0].id] = (pr_.coef, arg[0])
+            elif len(arg) == 1 and not pr_.den and isinstance(pr_.num[0][1], ast.Call) and \
+                    (dotted(pr_.num[0][1].func) or '').split('.')[-1] in ('deg_to_rad', 'deg2rad', 'radians') and \
+                    len(pr_.num[0][1].args) == 1 and norm(pr_.num[0][1].args[0]).endswith('.angle_deg()'):
+                # the same angle, converted from degrees in place
+                exps[s_.targets[0].id] = (pr_.coef, norm(pr_.num[0][1].args[0])[:-len('.angle_deg()')] + '.angle_rad()')
+            elif len(arg) == 2 and not pr_.den and 'np.pi' in arg and [a_ for a_ in arg if a_.endswith('.angle_deg()')] and \
+                    abs(abs(pr_.coef) - 1 / 180) < 1e-15:
+                a_ = [a_ for a_ in arg if a_.endswith('.angle_deg()')][0]
+                exps[s_.targets[0].id] = (pr_.coef * 180, a_[:-len('.angle_deg()')] + '.angle_rad()')
     # names: azimuth -> (c_p, s_p), zenith -> (c_t, s_t);  e^{-j a} = cos a - j sin a
     trig = {}
     okexp = True
@@ -603,7 +644,8 @@ def run(ctx, ck):
         except ValueError as e_:
             raise AnalysisError('direction vector literal not understood: %s' % e_)
     else:
-        raise AnalysisError('direction vector literal rvec not found (%d candidates)' % len(rv))
+        raise AnalysisError('direction vector literal rvec not found (%d candidates; integrator %s, phasors %s, mesh names %s)'
+                            % (len(rv), integ_f.qual, sorted(trig), sorted(alias)))
     # the phase uses the radial vector (.real), the polarisation projections theta (.imag) and phi
     ph = [s_ for s_ in walk_no_nested(integ_f.node) if isinstance(s_, ast.Assign) and 'self.w * np.sum' in norm(s_.value)
           and '.point' in norm(s_.value) or (isinstance(s_, ast.Assign) and 'self.w * np.sum' in norm(s_.value))]
@@ -616,7 +658,7 @@ def run(ctx, ck):
     from ..cache import find_memo_sites
     prog = ctx.program
     far_cl = prog.closure([f])
-    keys = {s_.key for s_ in find_memo_sites(m) if s_.func.qual in far_cl}
+    keys = {s_.key for s_ in find_memo_sites(m, ctx) if s_.func.qual in far_cl}
     ck.rule('R-CACHE.owner-only', 'memo sites in the far-field closure cache owner/key-only values')
     ck.rule('R-CACHE.no-inplace', 'values read from a cache are not updated in place')
     run_cache_rule(ctx, ck, only=keys)
